@@ -21,7 +21,7 @@ func init() { sim.Register(c10{}) }
 
 func (c10) ID() string     { return "C10" }
 func (c10) Level() string  { return "exploration" }
-func (c10) QuickRuns() int { return 6000 }
+func (c10) QuickRuns() int { return 60000 }
 func (c10) Rule() string {
 	return "each evaluation is one history of <=40 stream operations (open reader/writer at a bus address biased to $8000,$8001,$FFFD-$FFFF and below $8000; read/write with chunk lengths 0,1,remaining-1,remaining,remaining+1,remaining+3,32KiB,64KiB through raw calls, io.ReadFull, io.ReadAll, io.CopyN or bufio) over an image of 32KiB..1MiB (incl. odd sizes), several streams alive at once, checked call by call against a private image copy with per-stream windows; distinct = distinct scenario hash; non-trivial = a transfer touched, reached or crossed the end of a window, or a low-half stream was used, or two windows overlapped"
 }
